@@ -97,6 +97,7 @@ R.contract(
         "fresh_entry_is_returned_without_fetch": "implies(old(self.cache_entry) is not None and ghost('now') < old(self.cache_entry).expires, ghost('fetched') == 0 and result is old(self.cache_entry).data)",
         "after_fetch_entry_expires_one_interval_later": "implies(ghost('fetched') == 1, self.cache_entry is not None and self.cache_entry.expires == ghost('now') + self.refresh_interval and result is self.cache_entry.data)",
     },
+    replayable=False,  # see the keyed variant: interference at the lock is part of the counter-models
 )
 KeyedSelf = Obj(AU + "KeyedCachingAuthProvider", provider=Opq("Provider"), refresh_interval=IntRange(0, None), cache_entry=OneOf(NoneT, Entry),
                 timer=Callable_(contract="spec:timer", name="timer"), _refresh_lock=Obj("threading:Lock"),
@@ -127,6 +128,7 @@ R.contract(
                                                  "entry_for(self.cache_entries, ghost('key')).expires == ghost('now') + self.refresh_interval)",
     },
     bounded_note="at most 2 other cache keys",
+    replayable=False,  # the counter-models use interference by another thread while this one waits for the lock (rely havoc): not reproducible in a sequential native run
 )
 
 LEVEL_TEXT = ("Deductive: header precedence, override restriction (loop invariant over any number of parameters) and the token cache's double-checked lock "
